@@ -870,6 +870,167 @@ theorem matchedP_inv {K : Type} [Field K] [DecidableEq K] (num den zeros poles :
     exact ⟨rfl, rfl⟩
 
 
+/-! ### how the arguments reach the function: positional and keyword calls (strengthening after
+seeded changes, round 3) -/
+
+section binding
+
+
+theorem kwIndex_some {p : String} : ∀ {kws : List String} {j : Nat},
+    kwIndex p kws = some j → kws[j]? = some p
+  | [], j, h => by simp [kwIndex] at h
+  | k :: ks, j, h => by
+    unfold kwIndex at h
+    split_ifs at h with hk
+    · cases h; simp [hk]
+    · cases hj : kwIndex p ks with
+      | none => simp [hj] at h
+      | some j' =>
+        simp only [hj, Option.map_some, Option.some.injEq] at h
+        subst h
+        simpa using kwIndex_some hj
+
+theorem kwIndex_none {p : String} : ∀ {kws : List String}, kwIndex p kws = none ↔ p ∉ kws
+  | [] => by simp [kwIndex]
+  | k :: ks => by
+    unfold kwIndex
+    split_ifs with hk
+    · simp [hk]
+    · have := kwIndex_none (p := p) (kws := ks)
+      simp [this, Ne.symm hk]
+
+theorem slotsFrom_get (npos : Nat) (kws : List String) :
+    ∀ (ps : List String) (b i : Nat),
+      (slotsFrom npos kws b ps)[i]? = ps[i]?.map (slotOf npos kws (b + i))
+  | [], b, i => by simp [slotsFrom]
+  | p :: ps, b, 0 => by simp [slotsFrom]
+  | p :: ps, b, i + 1 => by
+    simp only [slotsFrom, List.getElem?_cons_succ]
+    rw [slotsFrom_get npos kws ps (b + 1) i]
+    congr 2; omega
+
+theorem slotsFrom_length (npos : Nat) (kws : List String) :
+    ∀ (ps : List String) (b : Nat), (slotsFrom npos kws b ps).length = ps.length
+  | [], b => rfl
+  | p :: ps, b => by simp [slotsFrom, slotsFrom_length npos kws ps]
+
+variable {params : List String} {nreq : Nat} {varkw : Bool} {npos : Nat} {kws : List String}
+
+/-- what a successful binding is: none of the four `TypeError` conditions, and the slots. -/
+theorem bindArgs_inv {s : List Slot} (h : bindArgs params nreq varkw npos kws = .ok s) :
+    npos ≤ params.length ∧ (∀ p ∈ params.take npos, p ∉ kws) ∧
+      (∀ p ∈ (params.take nreq).drop npos, p ∈ kws) ∧ s = slotsFrom npos kws 0 params := by
+  unfold bindArgs at h
+  split_ifs at h with h1 h2 h3 h4
+  refine ⟨by omega, ?_, ?_, by cases h; rfl⟩
+  · intro p hp hk
+    exact h2 (List.any_eq_true.mpr ⟨p, hp, by simpa using hk⟩)
+  · intro p hp
+    by_contra hk
+    exact h3 (List.any_eq_true.mpr ⟨p, hp, by simpa using hk⟩)
+
+/-- more positional arguments than parameters: `TypeError`. -/
+theorem bindArgs_too_many (h : params.length < npos) :
+    bindArgs params nreq varkw npos kws = .error .badArg := by
+  simp [bindArgs, h]
+
+/-- a parameter filled positionally and named again by keyword: `TypeError`
+("got multiple values for argument"). -/
+theorem bindArgs_multiple_values {p : String} (hp : p ∈ params.take npos) (hk : p ∈ kws) :
+    bindArgs params nreq varkw npos kws = .error .badArg := by
+  cases h : bindArgs params nreq varkw npos kws with
+  | error e =>
+    unfold bindArgs at h
+    split_ifs at h <;> cases h <;> rfl
+  | ok s => exact absurd hk ((bindArgs_inv h).2.1 p hp)
+
+/-- a parameter without default that the call does not fill: `TypeError`. -/
+theorem bindArgs_missing {p : String} (hp : p ∈ (params.take nreq).drop npos) (hk : p ∉ kws) :
+    bindArgs params nreq varkw npos kws = .error .badArg := by
+  cases h : bindArgs params nreq varkw npos kws with
+  | error e =>
+    unfold bindArgs at h
+    split_ifs at h <;> cases h <;> rfl
+  | ok s => exact absurd ((bindArgs_inv h).2.2.1 p hp) hk
+
+/-- one slot per parameter; the first `npos` parameters take the positional arguments in order. -/
+theorem bindArgs_pos {s : List Slot} (h : bindArgs params nreq varkw npos kws = .ok s) :
+    s.length = params.length ∧ ∀ i, i < npos → s[i]? = some (.pos i) := by
+  obtain ⟨hn, -, -, rfl⟩ := bindArgs_inv h
+  refine ⟨slotsFrom_length _ _ _ _, fun i hi => ?_⟩
+  rw [slotsFrom_get]
+  have : i < params.length := by omega
+  simp [List.getElem?_eq_getElem this, slotOf, hi]
+
+/-- **The binding delivers every value to the parameter it was written for.**  Let `a` assign
+the intended value to each parameter name, and let the call pass `a` of the first `npos`
+parameters positionally (in the documented order) and `a k` for each keyword `k`.  Then the
+parameter `p` receives `a p` when it is among the positional ones or named by keyword, and keeps
+its default otherwise — whatever the split between positional and keyword arguments and whatever
+the order of the keywords. -/
+theorem bindArgs_delivers {α : Type} {s : List Slot}
+    (h : bindArgs params nreq varkw npos kws = .ok s) (a : String → α) {i : Nat} {p : String}
+    (hp : params[i]? = some p) :
+    s[i]?.bind (Slot.value ((params.take npos).map a) (kws.map a))
+      = if i < npos ∨ p ∈ kws then some (a p) else none := by
+  obtain ⟨hn, -, -, rfl⟩ := bindArgs_inv h
+  rw [slotsFrom_get, hp]
+  simp only [Option.map_some, Option.bind_some, Nat.zero_add]
+  unfold slotOf
+  by_cases hi : i < npos
+  · simp [hi, Slot.value, hp]
+  · simp only [hi, if_false, false_or]
+    cases hj : kwIndex p kws with
+    | none => simp [Slot.value, kwIndex_none.mp hj]
+    | some j =>
+      have hm : p ∈ kws := by
+        by_contra hc; rw [kwIndex_none.mpr hc] at hj; cases hj
+      simp [Slot.value, kwIndex_some hj, hm]
+
+/-- **Positional and keyword calls are interchangeable**: two accepted calls of the same
+function that supply the same set of parameters (each its intended value `a p`) — one passing
+`n₁` of them positionally, the other `n₂`, the rest by keyword in any order — deliver the same
+value to every parameter. -/
+theorem bindArgs_form_irrelevant {α : Type} {n₁ n₂ : Nat} {k₁ k₂ : List String} {s₁ s₂ : List Slot}
+    (h₁ : bindArgs params nreq varkw n₁ k₁ = .ok s₁) (h₂ : bindArgs params nreq varkw n₂ k₂ = .ok s₂)
+    (a : String → α)
+    (same : ∀ i p, params[i]? = some p → ((i < n₁ ∨ p ∈ k₁) ↔ (i < n₂ ∨ p ∈ k₂)))
+    {i : Nat} {p : String} (hp : params[i]? = some p) :
+    s₁[i]?.bind (Slot.value ((params.take n₁).map a) (k₁.map a))
+      = s₂[i]?.bind (Slot.value ((params.take n₂).map a) (k₂.map a)) := by
+  rw [bindArgs_delivers h₁ a hp, bindArgs_delivers h₂ a hp]
+  simp only [same i p hp]
+
+/-- the documented order: in `sys.sample(Ts, 'bilinear', None, w)` the fourth argument is the
+prewarp frequency, in `sample_system(sys, Ts, 'gbt', 0.3)` the fourth is `alpha` — the same
+parameters the keyword calls name. -/
+theorem bind_documented_order :
+    bindSample 4 [] = .ok [.pos 0, .pos 1, .pos 2, .pos 3, .dflt, .dflt] ∧
+    bindSample 1 ["prewarp_frequency", "method"] = .ok [.pos 0, .kw 1, .dflt, .kw 0, .dflt, .dflt] ∧
+    bindSampleSystem 4 [] = .ok [.pos 0, .pos 1, .pos 2, .pos 3, .dflt, .dflt, .dflt] ∧
+    bindSampleSystem 5 ["copy_names"] = .ok [.pos 0, .pos 1, .pos 2, .pos 3, .pos 4, .dflt, .kw 0] ∧
+    bindSampleSystem 0 ["Ts", "sysc", "alpha", "method"]
+      = .ok [.kw 1, .kw 0, .kw 3, .kw 2, .dflt, .dflt, .dflt] := by decide
+
+/-- the calls Python rejects: too many arguments, a parameter given twice, `Ts` missing; label
+keywords (`inputs=…`) travel on in `**kwargs`. -/
+theorem bind_rejected :
+    bindSample 7 [] = .error .badArg ∧ bindSampleSystem 8 [] = .error .badArg ∧
+    bindSample 2 ["method"] = .error .badArg ∧ bindSampleSystem 3 ["alpha", "method"] = .error .badArg ∧
+    bindSample 0 ["method"] = .error .badArg ∧ bindSampleSystem 1 ["method"] = .error .badArg ∧
+    bindSample 1 ["Ts"] = .error .badArg ∧
+    bindSample 2 ["inputs"] = .ok [.pos 0, .pos 1, .dflt, .dflt, .dflt, .dflt] := by decide
+
+/-- `pade`: the keyword forms name the same parameters as the positional call; a keyword that
+names no parameter is rejected (no `**kwargs`). -/
+theorem bind_pade :
+    bindPade 3 [] = .ok [.pos 0, .pos 1, .pos 2] ∧
+    bindPade 1 ["numdeg", "n"] = .ok [.pos 0, .kw 1, .kw 0] ∧
+    bindPade 0 ["T", "n"] = .ok [.kw 0, .kw 1, .dflt] ∧
+    bindPade 1 ["num_deg"] = .error .badArg ∧ bindPade 4 [] = .error .badArg := by decide
+
+end binding
+
 /-! ### non-vacuity: concrete instances meeting the hypotheses -/
 
 section examples
@@ -923,6 +1084,13 @@ example : joinDt .btrue (.disc (1 / 10)) true = .ok (.disc (1 / 10)) ∧
     joinDt (.num 1) (.disc (1 / 10)) true = .error .timebase := by decide +kernel
 example : tfSampleP (K := ℚ) [1] [1, 1] .cont .btrue .bilinear none none
     = .ok ([1 / 3, 1 / 3], [1, -1 / 3], .dtrue) := by decide +kernel
+
+/-- non-vacuity of the binding theorems: `c2d(sys, Ts, 'bilinear', None, w)` and
+`c2d(sys, Ts, prewarp_frequency=w, method='bilinear')` are both accepted and supply the same
+parameters (with `alpha` explicitly at its default in the first). -/
+example : bindSampleSystem 5 [] = .ok [.pos 0, .pos 1, .pos 2, .pos 3, .pos 4, .dflt, .dflt] ∧
+    bindSampleSystem 2 ["prewarp_frequency", "method"]
+      = .ok [.pos 0, .pos 1, .kw 1, .dflt, .kw 0, .dflt, .dflt] := by decide
 
 end examples
 
